@@ -165,12 +165,12 @@ def t_edit_update(E):
     E.refutable("vmap.edit_update", E.eq(w, 0.0))
 
 
-@task("vmap.edit_index", props=["C01", "C05", "C06", "C11"], functions=FUNCS)
+@task("vmap.edit_index", props=["C01", "C05", "C06", "C08", "C11"], functions=FUNCS)
 def t_edit_index(E):
     _edit_index(E, 0, "")
 
 
-@task("vmap.edit_index.axis1", props=["C06", "C11"], functions=FUNCS)
+@task("vmap.edit_index.axis1", props=["C06", "C08", "C11"], functions=FUNCS)
 def t_edit_index_axis1(E):
     """same contract with the first argument mapped along axis 1 (in_axes=(1, None))"""
     _edit_index(E, 1, "[in_axes=(1,None)]")
@@ -229,6 +229,9 @@ def _edit_index(E, axis, sfx):
         new_s, SReal(old_s.t - T.tr_score(inner.at(idx.t).t) + T.tr_score(ef(T.edit_tr)))))
     E.prove("C01.Vmap.edit_index.wf" + sfx, wf(E, vm, new))
     E.prove("C05.Vmap.edit_index.args_unchanged" + sfx, E.eq(E.method(new, "get_args"), args))
+    # the returned retdiff carries the NEW stacked return value (a caller that uses the vmap's result downstream re-runs on it)
+    E.prove("C08.Vmap.edit_index.retdiff_primal_is_the_new_stacked_return_value" + sfx,
+            E.eq(E.call(INC + ":Diff.tree_primal", rd), E.method(new, "get_retval")), also=["C11"])
     E.refutable("vmap.edit_index" + sfx, E.eq(w, 0.0))
 
 
